@@ -52,6 +52,7 @@ type scriptNode struct {
 	gotSendH bool
 	sentLog  []string
 	hist     []nodeEv
+	peerBest int // height on the node's own chain up to which it believes the peer has its headers (BIP 130 bookkeeping)
 
 	auto     bool // free mode: answer in the reader goroutine
 	delayRng *rand.Rand
@@ -298,6 +299,11 @@ func (n *scriptNode) conformantReply(req ghReq) []int {
 			}
 		}
 	}
+	n.mu.Lock()
+	if start > n.peerBest {
+		n.peerBest = start
+	}
+	n.mu.Unlock()
 	var out []int
 	for k := start; k < len(chain) && len(out) < n.spec.Cap; k++ {
 		out = append(out, chain[k])
@@ -319,6 +325,13 @@ func (n *scriptNode) sendHeaders(idxs []int) error {
 		}
 	}
 	n.mu.Lock()
+	if len(idxs) > 0 {
+		// the node assumes the peer accepts what it is sent, if it connects to what the peer has
+		first, last := n.tree.height[idxs[0]], n.tree.height[idxs[len(idxs)-1]]
+		if first <= n.peerBest+1 && last > n.peerBest && last <= len(n.spec.Path) && n.spec.Path[last-1] == idxs[len(idxs)-1] {
+			n.peerBest = last
+		}
+	}
 	n.sentLog = append(n.sentLog, "headers "+compactInts(idxs))
 	n.hist = append(n.hist, nodeEv{Sent: true, Kind: "headers", Idx: append([]int{}, idxs...)})
 	n.mu.Unlock()
@@ -359,6 +372,13 @@ func (n *scriptNode) answer(req ghReq) (string, []int) {
 	idxs := n.conformantReply(req)
 	_ = n.sendHeaders(idxs)
 	return "headers", idxs
+}
+
+// peerHas: the node believes the peer has the header at this height of the node's chain (height 0 = genesis).
+func (n *scriptNode) peerHas(height int) bool {
+	n.mu.Lock()
+	defer n.mu.Unlock()
+	return height <= n.peerBest
 }
 
 // takePending removes the oldest unanswered request (serial mode).
